@@ -185,6 +185,10 @@ def check(ctx):
     # ---- C04.validate ---------------------------------------------------------------------------------------------------------------------
     _validate(ctx)
 
+    # ---- C04.selector (clang AST of the instantiated support header) -------------------------------------------------------------------
+    from ..embedded_cxx import selector_rules
+    selector_rules(ctx, 'C04')
+
 
 def _fixture_provenance(ctx):
     """MultiClientPortCfgFixture(claim_event=<event with name == cfg.claim_event_name>, release_event=<... release ...>)"""
@@ -289,5 +293,4 @@ def _validate(ctx):
 
 
 def check_thorough(ctx):
-    from ..embedded_cxx import selector_rules
-    selector_rules(ctx, 'C04')
+    pass
